@@ -1483,14 +1483,15 @@ class Operation(_IRNode):
             for successor, other_successor in zip(self.successors, other.successors)
         ):
             return False
+        # Add results of this operation to the context, before checking the regions as
+        # they may use the results (e.g. in graph regions)
+        for result, other_result in zip(self.results, other.results):
+            context[result] = other_result
         if not all(
             region.is_structurally_equivalent(other_region, context)
             for region, other_region in zip(self.regions, other.regions)
         ):
             return False
-        # Add results of this operation to the context
-        for result, other_result in zip(self.results, other.results):
-            context[result] = other_result
 
         return True
 
@@ -2064,6 +2065,10 @@ class Block(_IRNode, IRWithUses, IRWithName):
             context[arg] = other_arg
         # Add self to the context so Operations can check for identical parents
         context[self] = other
+        # Values may be used before their definition, register all results first
+        for op, other_op in zip(self.ops, other.ops):
+            for result, other_result in zip(op.results, other_op.results):
+                context[result] = other_result
         if not all(
             op.is_structurally_equivalent(other_op, context)
             for op, other_op in zip(self.ops, other.ops)
@@ -2702,6 +2707,12 @@ class Region(_IRNode):
         # the corrects successors
         for block, other_block in zip(self.blocks, other.blocks):
             context[block] = other_block
+            # Values may be used in a block that precedes the one defining them
+            for arg, other_arg in zip(block.args, other_block.args):
+                context[arg] = other_arg
+            for op, other_op in zip(block.ops, other_block.ops):
+                for result, other_result in zip(op.results, other_op.results):
+                    context[result] = other_result
         if not all(
             block.is_structurally_equivalent(other_block, context)
             for block, other_block in zip(self.blocks, other.blocks)
